@@ -332,7 +332,7 @@ impl<'a, B: SddBuilder<'a>> Session<'a, B> {
                 let a = self.arg(rng);
                 ev["a"] = json!([a]);
                 let x = self.pool[a];
-                let kind = *rng.pick(&["real", "bool", "ff", "complex", "eu", "poly", "rat"]);
+                let kind = *rng.pick(&["real", "bool", "ff", "complex", "eu", "poly", "rat", "polyhi"]);
                 let wq = gen_weights(rng, kind, nv, true); // SDD counts are only defined for normalised weights
                 wq.log(&mut ev);
                 count_in(x, &wq, nv, &mut ev)
